@@ -119,9 +119,10 @@ pub fn next(rng: &mut Rng, i: u64) -> (String, Value) {
             let es: Vec<Value> = (0..rng.range(0, 4)).map(|i| {
                 let name: String = mt!(rng, rng.pick_str(&["a-1", "nodash", "-", "--", "x-1.0nb2", "日本-1"]).to_string(), "-").chars().filter(|c| *c != '/' && *c != '\0').take(40).collect();
                 let name = if name.is_empty() || name == "." || name == ".." { format!("d{}", i) } else { format!("{}{}", name, i) };
-                json!({"name": codes(&name), "dir": tf(rng.chance(4, 5)), "files": [3, 4, 6]})
+                json!({"name": codes(&name), "dir": tf(rng.chance(4, 5)), "files": [3, 4, 6], "empty": if rng.chance(1, 4) { vec![3, 6] } else { vec![] }, "raw": tf(rng.chance(1, 5))})
             }).collect();
-            ("pkgdb".into(), json!({"entries": es}))
+            let root = match rng.below(6) { 0 => "file", 1 => "missing", _ => "dir" };
+            ("pkgdb".into(), json!({"root": root, "entries": if root == "dir" { es } else { vec![] }}))
         }
         _ => {
             // Summary call histories including empty lists, repeated calls, all getters after each
